@@ -229,6 +229,8 @@ class Engine:
         m = dict(meta or {})
         m.setdefault("path", list(self.trace))
         m["nbase"] = len(base)
+        en = getattr(self, "entry_pc_len", None)
+        m["entry_n"] = en if en is not None and not self.guards else None
         extra_terms = list(extra_terms) + self.hint_terms()
         vc = VC(name, hyps, list(self.st.schemas) + self.reg.global_schemas(self), goal, extra_terms, m)
         vc._keep = hyps  # keep z3 refs alive
